@@ -1,6 +1,7 @@
 /- Driver for the loader family: same protocol as harness/load.cpp. -/
 import ElfioVerif.Driver.Common
 import ElfioVerif.Model.Load
+import ElfioVerif.Model.Validate
 namespace ElfioVerif.Drv.Load
 open ElfioVerif ElfioVerif.Drv
 
@@ -89,6 +90,12 @@ def step (o : Obj) (t : List String) : Obj × String :=
       | .ok (some s) => (o, s!"str={hexOfBytes s}")
       | .ok none => (o, "str=null")
       | .error f => (o, f.render)
+  | ["validate"] =>
+    let cs := validate o
+    let ov := cs.filter (fun c => match c with | .overlap _ _ => true | _ => false) |>.length
+    let cf := cs.filterMap (fun c => match c with | .conflict h => some h | _ => none)
+    (o, s!"validate overlaps={ov} conflicts={joinNats cf}")
+  | ["dump"] => (o, "dump=ok")
   | _ => (o, "bad-op")
 
 def runCase (ops : List (List String)) : List String :=
